@@ -20,6 +20,7 @@ import (
 
 	"github.com/prometheus/client_golang/prometheus"
 	"github.com/prometheus/prometheus/model/labels"
+	promParser "github.com/prometheus/prometheus/promql/parser"
 )
 
 // C20: rule/dependency.
@@ -43,15 +44,11 @@ func c20Expr(r *rand.Rand, ru *gRule, allowOdd bool) {
 		case c <= 3:
 			m := pick(r, c20Records)
 			ru.Refs = append(ru.Refs, m)
-			parts = append(parts, pick(r, []string{m, "sum(" + m + ") by (job)", m + `{job="a"}`, "rate(" + m + "[5m])", "max_over_time(" + m + "[1h:5m])"}))
+			parts = append(parts, "("+pick(r, c20VecForms(m))+")")
 		case c <= 6:
 			a := pick(r, c20Alerts)
 			ru.AlertRefs = append(ru.AlertRefs, a)
-			parts = append(parts, pick(r, []string{
-				fmt.Sprintf(`ALERTS{alertname="%s"}`, a),
-				fmt.Sprintf(`ALERTS_FOR_STATE{alertname="%s"}`, a),
-				fmt.Sprintf(`ALERTS{alertstate="firing", alertname="%s"}`, a),
-				fmt.Sprintf(`count(ALERTS{alertname="%s", alertstate="pending"})`, a)}))
+			parts = append(parts, "("+pick(r, c20AlertForms(a))+")")
 		case c == 7 && allowOdd:
 			m := pick(r, c20Records)
 			ru.NameRefs = append(ru.NameRefs, m)
@@ -72,6 +69,77 @@ func c20Expr(r *rand.Rand, ru *gRule, allowOdd bool) {
 	ru.Expr = strings.Join(parts, op)
 	if ru.Kind == "alert" {
 		ru.Expr = "(" + ru.Expr + ") > 0"
+	}
+	// the reference graph is what the generator PRINTED; an expression the (upstream) PromQL parser rejects would select nothing,
+	// so a generator slip must not turn into a wrong expectation: fall back to a plain metric and drop the references
+	if _, err := promParser.ParseExpr(ru.Expr); err != nil {
+		c20BadExprs++
+		ru.Expr = pick(r, c20Raw)
+		ru.Refs, ru.AlertRefs, ru.NameRefs = nil, nil, nil
+		if ru.Kind == "alert" {
+			ru.Expr = "(" + ru.Expr + ") > 0"
+		}
+	}
+}
+
+var c20BadExprs int
+
+// c20VecForms: every PromQL position a selector of metric m can occur in, each form instant-vector typed so that it can be
+// an operand of any binary / set operator: bare, matchers, aggregation argument and aggregation PARAMETER, range and subquery
+// function arguments, beneath scalar() (scalar-typed subtrees: function arguments, binary operands, aggregation parameters),
+// string-taking functions, unary minus, parentheses, offset / @ modifiers, either side of a binary or set operator.
+func c20VecForms(m string) []string {
+	return []string{
+		m,
+		"sum(" + m + ") by (job)",
+		m + `{job="a"}`,
+		"rate(" + m + "[5m])",
+		"max_over_time(" + m + "[1h:5m])",
+		"avg_over_time(sum(" + m + ")[10m:1m])",
+		"vector(scalar(" + m + "))",
+		"vector(scalar(sum(" + m + ")))",
+		"up * scalar(" + m + ")",
+		"scalar(" + m + ") + up",
+		"vector(time() - scalar(" + m + "))",
+		"topk(scalar(" + m + "), up)",
+		"quantile(scalar(" + m + "), up)",
+		"clamp_max(up, scalar(" + m + "))",
+		"histogram_quantile(scalar(" + m + "), lat)",
+		"quantile(0.9, " + m + ")",
+		"histogram_quantile(0.9, " + m + ")",
+		"label_replace(" + m + `, "dst", "$1", "job", "(.*)")`,
+		"label_join(" + m + `, "dst", "-", "job", "instance")`,
+		`count_values("v", ` + m + ")",
+		"-(" + m + ")",
+		"((" + m + "))",
+		m + " offset 5m",
+		m + " @ 100",
+		"absent(" + m + ")",
+		"up unless on(job) " + m,
+		m + " > bool 0",
+		"up and on(job) (" + m + " > 1)",
+	}
+}
+
+func c20AlertForms(a string) []string {
+	al := fmt.Sprintf(`ALERTS{alertname="%s"}`, a)
+	afs := fmt.Sprintf(`ALERTS_FOR_STATE{alertname="%s"}`, a)
+	return []string{
+		al,
+		afs,
+		fmt.Sprintf(`ALERTS{alertstate="firing", alertname="%s"}`, a),
+		fmt.Sprintf(`count(ALERTS{alertname="%s", alertstate="pending"})`, a),
+		"vector(scalar(" + al + "))",
+		"up * scalar(count(" + al + "))",
+		"topk(scalar(" + afs + "), up)",
+		"clamp_min(up, scalar(" + al + "))",
+		"count_over_time(" + al + "[5m])",
+		"max_over_time(" + afs + "[1h:5m])",
+		"-(" + al + ")",
+		"up unless " + al,
+		"label_replace(" + al + `, "a", "$1", "b", "(.*)")`,
+		al + " offset 1m",
+		"vector(time() - scalar(" + afs + "))",
 	}
 }
 
@@ -424,6 +492,7 @@ type c20E2E struct {
 	OddSpell  []string  `json:"name_spelling_not_listed,omitempty"`
 	Removed   int       `json:"removed_rules"`
 	NextToInvalid int   `json:"removed_rules_whose_head_file_has_an_invalid_rule"`
+	UnderScalar   int   `json:"expected_dependants_whose_expression_uses_scalar"`
 	GitLog    string    `json:"git_log"`
 	HeadFiles map[string]string `json:"-"`
 }
@@ -647,6 +716,9 @@ func c20Truth(c *c20E2E) {
 			for _, h := range head {
 				uses := (ru.Kind == "record" && contains(h.ru.Refs, ru.Name)) || (ru.Kind == "alert" && contains(h.ru.AlertRefs, ru.Name))
 				if uses {
+					if strings.Contains(h.ru.Expr, "scalar(") {
+						c.UnderScalar++
+					}
 					d := [3]string{h.ru.Name, h.path, fmt.Sprint(h.line)}
 					dup := false
 					for _, x := range deps {
@@ -812,6 +884,9 @@ func runC20(args []string) int {
 		}
 		rep.hist(fmt.Sprintf("b:expected-warnings=%d", min(len(c.Expected), 4)))
 		rep.hist(fmt.Sprintf("b:removed-rules=%d", min(c.Removed, 6)))
+		if c.UnderScalar > 0 {
+			rep.hist("b:expected-dependant-with-scalar()-subtree")
+		}
 		if c.NextToInvalid > 0 {
 			rep.hist("b:removed-rule-whose-head-file-has-an-invalid-rule")
 		}
@@ -828,6 +903,7 @@ func runC20(args []string) int {
 			rep.sample(c)
 		}
 	}
+	rep.hist(fmt.Sprintf("gen:expressions-rejected-by-the-promql-parser=%d", c20BadExprs))
 	if odd > 0 {
 		rep.Notes = append(rep.Notes, fmt.Sprintf("%d histories contain a remaining rule that selects a removed recorded metric only through the {__name__=\"x\"} spelling; "+
 			"such rules are not listed by pint (selector Name is empty in that spelling). Reported separately as a reading of the property, not as a violation.", odd))
